@@ -94,6 +94,10 @@ func verifC25Drive(nEntries, maxCommits, maxRows int, twin bool) {
 		s.Reset(idx)
 		verifAssert("C25-reset-drops-pending", s.Len() == 0)
 		handedOut := 0 // groups handed out for this entry so far
+		// the consumer (cdc.Service) reads a group some time after it was handed out: every group of
+		// the entry is looked at again when the entry is over
+		var keptGroups []*command.CDCIndexedEventGroup
+		var keptEvents [][]*command.CDCEvent
 
 		commits := verifChoice(verifName("commits", e), maxCommits+1)
 		for c := 0; c < commits; c++ {
@@ -154,6 +158,15 @@ func verifC25Drive(nEntries, maxCommits, maxRows int, twin bool) {
 			}
 			verifAssert("C25-group-carries-index-of-last-reset", g.Index == idx)
 			handedOut++
+			keptGroups = append(keptGroups, g)
+			keptEvents = append(keptEvents, evs)
+		}
+		for k, g := range keptGroups {
+			same := len(g.Events) == len(keptEvents[k])
+			for r := 0; same && r < len(g.Events); r++ {
+				same = g.Events[r] == keptEvents[k][r]
+			}
+			verifAssert("C25-handed-out-group-still-holds-its-events", same)
 		}
 		// the last statement of the request may fail after it changed a row: SQLite undoes it and
 		// no commit follows; the row event stays pending until Reset ("all pending events are cleared")
